@@ -2,13 +2,13 @@ package main
 
 import (
 	"fmt"
-	"regexp"
-	"sync"
 	"go/token"
 	"go/types"
 	"os"
+	"regexp"
 	"sort"
 	"strings"
+	"sync"
 
 	"golang.org/x/tools/go/packages"
 	"golang.org/x/tools/go/ssa"
@@ -19,19 +19,19 @@ const modPath = "github.com/vapourismo/knx-go"
 
 type Program struct {
 	constMaps map[*ssa.Global]*constMapInfo
-	repo    string
-	fset    *token.FileSet
-	pkgs    []*packages.Package
-	prog    *ssa.Program
-	ssaPkgs map[string]*ssa.Package // by short name: util, cemi, knxnet, dpt, knx
-	lay     *layoutCache
+	repo      string
+	fset      *token.FileSet
+	pkgs      []*packages.Package
+	prog      *ssa.Program
+	ssaPkgs   map[string]*ssa.Package // by short name: util, cemi, knxnet, dpt, knx
+	lay       *layoutCache
 
 	// dynamic type tags (interface words)
 	tagOf   map[string]uint64 // types.Type string -> tag
 	tagType []types.Type      // tag -> type (index 0 unused)
 
-	contracts *ContractSet
-	funcs     map[string]*ssa.Function // ssa String() -> function (repo packages only)
+	contracts  *ContractSet
+	funcs      map[string]*ssa.Function // ssa String() -> function (repo packages only)
 	globalInit map[*ssa.Global][]uint64
 }
 
